@@ -143,9 +143,41 @@ def run_shard(spec, tier, seed):
             inp = os.path.join(tmp, 'in.ini')
             write_ini(inp, p.answers)
             sol = os.path.join(tmp, 'sol.ini')
+            # history: the same --solution path was used before, for a larger return (more statements, more forms)
+            big = None
+            for k in range(40):
+                q = scen.Persona(year, ['F8', 'F2', 'F10'][k % 3], f'yrbig:{seed}:{k}')
+                ob = scen.solve_persona(q)
+                if ob.exc is None and ob.ret is True and len(drive.solution_map(ob)) > len(drive.solution_map(out)) + 1:
+                    big = q
+                    break
+            if big is not None:
+                inpb = os.path.join(tmp, 'big.ini')
+                write_ini(inpb, big.answers)
+                argsb = ['solve', inpb, '--year', str(year), '--solution', sol]
+                for f_ in big.forms():
+                    argsb += ['--form', f_]
+                rb = cli.run_cli(argsb)
+                if rb.exc is None and os.path.exists(sol):
+                    res.count('cli_solution_path_reused')
             r = cli.run_cli(['solve', inp, '--year', str(year), '--form', '1040', '--solution', sol])
             res.evaluations += 1
             res.count('cli_year_runs')
+            if r.exc is None and os.path.exists(sol):
+                want = drive.solution_map(out)
+                try:
+                    cpf = configparser.ConfigParser()
+                    with open(sol) as fh:
+                        cpf.read_file(fh)
+                    got = {sec: dict(cpf.items(sec, raw=True)) for sec in cpf.sections() if sec != 'habutax'}
+                except Exception as e:  # noqa
+                    res.violation(f'C14|cli|{year}|solution-file-unreadable|{type(e).__name__}', f'{year}: the solution written by `solve --solution` (path used before for another return: {big is not None}) cannot be read back: {type(e).__name__}: {str(e)[:100]}', {'year': year, 'persona': p.describe()})
+                    return res
+                if got is not None:
+                    res.count('cli_solution_files_compared')
+                    if got != want:
+                        d = sorted(set(got) ^ set(want))[:4] or sorted(k_ for k_ in want if want[k_] != got.get(k_))[:4]
+                        res.violation(f'C14|cli|{year}|solution-file-differs', f'{year}: the solution file differs from the solved values (sections {d}); path used before for another return: {big is not None}', {'year': year, 'persona': p.describe()})
             if r.exc is not None or 'Successfully solved' not in r.stdout:
                 res.inconclusive.append(f'CLI solve of the base persona failed in {year}: {r.exc or r.stdout[-200:]}')
                 return res
